@@ -32,6 +32,14 @@ def ks_trace(scn, rec):
     rk.freeze()
     creates = [p["k"] for nm, p in log if nm == "create_arcs"]
     pdfs = [p["k"] for nm, p in log if nm == "calculate_pdf"]
+    # the criterion of a KNN-supervised candidate is its accuracy ON THE VALIDATION LABELS: the measure is not symmetric, so the
+    # true labels handed to it must be the validation labels (1 yes, 0 no, 2 not observed)
+    crit = 2
+    if scn["kind"] == "knn":
+        want = [int(y) + int(scn.get("label_offset", 0)) for y in scn["Yv"]]
+        seen = [p.get("labels") for nm, p in log if nm == "acc" and p.get("labels") is not None]
+        if seen:
+            crit = 1 if all(lv == want for lv in seen) else 0
     # "the final model is built with that k": its density model (constant, range, every sample's density) is that of a graph built
     # from scratch on the same samples with k = best_k (a fresh KNNSubgraph, create_arcs(best_k), calculate_pdf(best_k)) - nothing an
     # earlier candidate left behind (a larger density bound, plateau arcs) is part of it.  1 same, 0 differs, 2 not comparable
@@ -53,6 +61,7 @@ def ks_trace(scn, rec):
         same = 2
     return {
         "final_pdf_same": same,
+        "criterion_on_validation_labels": crit,
         "mode": scn["kind"],
         "lo": 1 if scn["kind"] == "knn" else scn["min_k"],
         "hi": scn["max_k"],
